@@ -206,7 +206,7 @@ def render(name, fd, spec):
     return '%s(%s)' % (n, ', '.join(args)), binds
 
 
-def evaluate(engine, ctx, text, binds, src, timeout=5.0):
+def evaluate(engine, ctx, text, binds, src, timeout=20.0):
     from yaql.language import exceptions as exc
     c = ctx.create_child_context()
     for k, v in binds.items():
